@@ -367,6 +367,132 @@ Proof.
   injection H as <- <-. simpl in Hx. unfold index_of. rewrite El. eapply remove_at_In. exact Hx.
 Qed.
 
+(* ------------------------------------------------------------------ the emitted ops fit the index they were emitted for *)
+
+Lemma ops_fit_app : forall a b l, ops_fit (a ++ b) l = ops_fit a l && ops_fit b (replay a l).
+Proof.
+  induction a as [|o a IH]; intros b l; simpl; [reflexivity|].
+  rewrite IH. rewrite andb_assoc. reflexivity.
+Qed.
+
+Lemma remove_entry_fits : forall k l l' ops, remove_entry k l = (l', ops) -> ops_fit ops l = true.
+Proof.
+  intros k l l' ops H. unfold remove_entry in H. destruct (find_last k l) as [i|] eqn:E.
+  - injection H as <- <-. simpl. rewrite (find_last_some _ _ _ E), name_eqb_refl. reflexivity.
+  - injection H as <- <-. reflexivity.
+Qed.
+
+Lemma remove_index_entry_fits : forall n k n' ops, remove_index_entry n k = (n', ops) -> ops_fit ops (index_of n) = true.
+Proof.
+  intros n k n' ops H. unfold remove_index_entry in H. unfold index_of.
+  destruct (idx n) as [l|]; [|injection H as <- <-; reflexivity].
+  destruct (remove_entry k l) as [l' o] eqn:Er. injection H as <- <-. eapply remove_entry_fits. exact Er.
+Qed.
+
+Lemma insert_ordered_child_fits : forall kids n b optname n' nm ops,
+  insert_ordered_child kids n b optname = (n', nm, ops) -> ops_fit ops (index_of n) = true.
+Proof.
+  intros kids n b optname n' nm ops H. unfold insert_ordered_child in H. unfold index_of.
+  destruct (match optname with Some x => (x, ctr n) | None => gen_name kids (ctr n) (S (length kids)) end) as [nm0 c0].
+  destruct (idx n) as [l|]; destruct (is_remove b); injection H as <- <- <-; try reflexivity; simpl.
+  - rewrite andb_true_r. apply Nat.leb_le. apply target_pos_le.
+  - rewrite andb_true_r. apply Nat.leb_le. apply (target_pos_le b []).
+Qed.
+
+Lemma reorder_go_fits : forall kids cn c b l n2 ops2, NoDup l -> reorder_go kids cn c b l = (n2, ops2) -> ops_fit ops2 l = true.
+Proof.
+  intros kids cn c b l n2 ops2 Hl E. unfold reorder_go in E.
+  destruct (remove_entry c l) as [l1 ops1] eqn:Er.
+  pose proof (remove_entry_fits _ _ _ _ Er) as F1.
+  destruct (remove_entry_spec _ _ _ _ Hl Er) as (_ & B & _).
+  assert (Hins : forall tgt, tgt <= length l1 -> ops_fit (ops1 ++ [OpIns tgt c]) l = true).
+  { intros tgt Ht. rewrite ops_fit_app, F1, B. simpl. rewrite andb_true_r. apply Nat.leb_le. exact Ht. }
+  destruct b as [| |x].
+  - injection E as <- <-. apply Hins. lia.
+  - injection E as <- <-. exact F1.
+  - injection E as <- <-. apply Hins. destruct (mem x kids); [apply (target_pos_le (BName x) l1) | lia].
+Qed.
+
+Lemma reorder_child_fits : forall kids n c b n' ops, wfn kids n -> reorder_child kids n c b = (n', ops) ->
+  ops_fit ops (index_of n) = true.
+Proof.
+  intros kids n c b n' ops [Hn _] H. unfold reorder_child in H.
+  destruct (idx n) as [l|] eqn:El.
+  - assert (Ei : index_of n = l) by (unfold index_of; rewrite El; reflexivity). rewrite Ei in *.
+    destruct (match b with BName x => name_eqb x c | _ => false end); [injection H as <- <-; reflexivity|].
+    eapply reorder_go_fits; eassumption.
+  - assert (Ei : index_of n = []) by (unfold index_of; rewrite El; reflexivity). rewrite Ei in *.
+    destruct (is_remove b); [injection H as <- <-; reflexivity|].
+    destruct (match b with BName x => name_eqb x c | _ => false end); [injection H as <- <-; reflexivity|].
+    eapply reorder_go_fits; eassumption.
+Qed.
+
+Lemma insert_index_entry_at_fits : forall kids n pos k n' ops, pos <= length (index_of n) ->
+  insert_index_entry_at kids n pos k = (n', ops) -> ops_fit ops (index_of n) = true.
+Proof.
+  intros kids n pos k n' ops Hp H. unfold insert_index_entry_at in H.
+  destruct (mem k kids); injection H as <- <-; [|reflexivity]. simpl. rewrite andb_true_r. apply Nat.leb_le. exact Hp.
+Qed.
+
+Lemma remove_index_entry_at_fits : forall n pos n' ops, remove_index_entry_at n pos = (n', ops) -> ops_fit ops (index_of n) = true.
+Proof.
+  intros n pos n' ops H. unfold remove_index_entry_at in H. unfold index_of.
+  destruct (idx n) as [l|]; [|injection H as <- <-; reflexivity].
+  destruct (nth_error l pos) as [k|] eqn:E; injection H as <- <-; [|reflexivity].
+  simpl. rewrite E, name_eqb_refl. reflexivity.
+Qed.
+
+Lemma ins_from_fits : forall l pre, ops_fit (ins_from (length pre) l) pre = true.
+Proof.
+  induction l as [|k t IH]; intro pre; simpl; [reflexivity|].
+  rewrite Nat.leb_refl. simpl. unfold insert_at. rewrite firstn_all, skipn_all.
+  replace (S (length pre)) with (length (pre ++ [k])) by (rewrite app_length; simpl; lia). apply IH.
+Qed.
+
+Lemma snapshot_fits : forall n l, ops_fit (snapshot n) l = true.
+Proof.
+  intros n l. unfold snapshot. destruct (index_of n) as [|k t]; [reflexivity|].
+  change (ops_fit (OpClear :: ins_from 0 (k :: t)) l) with (ops_fit (ins_from (length (@nil name)) (k :: t)) []).
+  apply ins_from_fits.
+Qed.
+
+(* CloneDataNodeSubtree's copy loop keeps a prefix of w placed entries: dropping a name that is not in the
+   prefix leaves the prefix alone, inserting at w extends it *)
+Lemma nth_error_firstn_lt : forall (l : list name) w i, i < w -> nth_error (firstn w l) i = nth_error l i.
+Proof.
+  induction l as [|x l IH]; intros w i H; [destruct w; destruct i; reflexivity|].
+  destruct w as [|w]; [lia|]. destruct i as [|i]; [reflexivity|]. simpl. apply IH. lia.
+Qed.
+
+Lemma remove_entry_prefix : forall k l l' ops w, remove_entry k l = (l', ops) ->
+  w <= length l -> ~ In k (firstn w l) -> w <= length l' /\ firstn w l' = firstn w l.
+Proof.
+  intros k l l' ops w H Hw Hk. unfold remove_entry in H. destruct (find_last k l) as [i|] eqn:E.
+  - injection H as <- <-. pose proof (find_last_some _ _ _ E) as Hi. pose proof (find_last_lt _ _ _ E) as Hlt.
+    assert (Hwi : w <= i).
+    { destruct (Nat.le_gt_cases w i) as [Hle|Hgt]; [exact Hle|]. exfalso. apply Hk.
+      apply nth_error_In with (n := i). rewrite nth_error_firstn_lt by exact Hgt. exact Hi. }
+    unfold remove_at. split.
+    + rewrite app_length, firstn_length, skipn_length. lia.
+    + rewrite firstn_app, firstn_firstn, firstn_length.
+      replace (Nat.min w i) with w by lia. replace (w - Nat.min i (length l)) with 0 by lia.
+      simpl. apply app_nil_r.
+  - injection H as <- <-. split; [exact Hw | reflexivity].
+Qed.
+
+Lemma firstn_insert_at : forall (l : list name) w k, w <= length l -> firstn (S w) (insert_at l w k) = firstn w l ++ [k].
+Proof.
+  intros l w k Hw. unfold insert_at. rewrite firstn_app, firstn_length.
+  replace (Nat.min w (length l)) with w by lia. replace (S w - w) with 1 by lia.
+  rewrite firstn_all2 by (rewrite firstn_length; lia). reflexivity.
+Qed.
+
+Lemma insert_at_length : forall (l : list name) w k, length (insert_at l w k) = S (length l).
+Proof.
+  intros l w k. unfold insert_at. rewrite app_length. simpl.
+  rewrite <- (firstn_skipn w l) at 3. rewrite app_length. lia.
+Qed.
+
 (* the pinned InsertIndexEntryAt happily inserts a name a second time (its documented precondition);
    CloneDataNodeSubtree onto a destination that already has the entry does exactly that *)
 Lemma insert_index_entry_at_dup_refuted :
